@@ -8,6 +8,7 @@ hence first in `fs->links_unresolved`).  Node indices: 0 = root, 1 = b, 2 = c,
 `node == start` (`start = a`), which never fires.
 -/
 import Sqfs.Model.HardLink
+import Sqfs.Model.ParseTotalTar
 namespace Sqfs.C07.Witness
 open Sqfs.HardLink
 
@@ -48,5 +49,23 @@ theorem resolveAll_diverges (fuel : Nat) (counts : Nat → Nat) :
 /-- the repaired loop reports `EMLINK` on the same graph (3 unresolved links ⇒ `max_hops = 3`) -/
 example : (match resolveAllFix g₃ 5 (St.init (fun _ => 1)) [3, 2, 1] with | .err 3 .EMLINK => true | _ => false) = true := by
   decide
+
+
+/-! ## use-after-free in `read_pax_header` (1.2.0)
+
+One PAX extended header with the records `GNU.sparse.numbytes=1`, `GNU.sparse.map=0,1`,
+`GNU.sparse.numbytes=2`: the first creates the list and `sparse_last`, the second frees the list
+(`pax_sparse_map` → `free_sparse_list(out->sparse)`) but leaves `sparse_last`, the third stores
+through it.  In the model of the shipped code that store is `.oob`; the repaired code
+(fixes/C07-pax-sparse-uaf.patch) accepts the header and keeps the last entry only.
+-/
+open Sqfs.ParseTotal in
+def uafRecord : List UInt8 := [50, 53, 32, 71, 78, 85, 46, 115, 112, 97, 114, 115, 101, 46, 110, 117, 109, 98, 121, 116, 101, 115, 61, 49, 10, 50, 50, 32, 71, 78, 85, 46, 115, 112, 97, 114, 115, 101, 46, 109, 97, 112, 61, 48, 44, 49, 10, 50, 53, 32, 71, 78, 85, 46, 115, 112, 97, 114, 115, 101, 46, 110, 117, 109, 98, 121, 116, 101, 115, 61, 50, 10]
+
+open Sqfs.ParseTotal in
+theorem pax_use_after_free : (readPaxHeader false uafRecord).isOob = true := by decide
+
+open Sqfs.ParseTotal in
+example : (readPaxHeader true uafRecord).isOk = true := by decide
 
 end Sqfs.C07.Witness
